@@ -52,6 +52,7 @@ var (
 	cLive          = simrt.RegisterCounter("probe_liveness_frames")
 	cEmptyPort0    = simrt.RegisterCounter("probe_port0_without_commands")
 	cResend        = simrt.RegisterCounter("probe_application_payload_resent_under_next_counter")
+	cCandidate     = simrt.RegisterCounter("probe_second_frame_counter_candidate_on_the_same_frame")
 	cLegacyRefused = simrt.RegisterCounter("probe_frame_with_legacy_value_refused_not_judged")
 	cText          = simrt.RegisterCounter("probe_frames_received_as_base64_text")
 	cReuseRx       = simrt.RegisterCounter("probe_receiver_reuses_its_frame_value")
@@ -726,6 +727,39 @@ func receive(w *world, p *packet, rcv int, r *sim.Rand) bool {
 			}
 			fcnt32 = reconstruct(last, wire16)
 			tx.ConfFCnt = me.lastConfUp
+		}
+	}
+	// a receiver that is not sure about the upper half of the counter tries
+	// candidates on the SAME decoded frame: a first validation with another
+	// upper half (judged like any validation: accepted only if the
+	// specification's MIC for that counter is the MIC on the wire), then the
+	// one with the reconstructed counter
+	if isData && len(p.bytes) >= 12 && r.Intn(3) == 0 {
+		cand := fcnt32 ^ uint32(1+r.Intn(3))<<16
+		if r.Intn(4) == 0 {
+			cand = fcnt32&0xffff | uint32(r.Intn(1<<16))<<16
+		}
+		if cand != fcnt32 {
+			simrt.Count(cCandidate)
+			var okC bool
+			var errC error
+			if sim.Guard("panic.receiver", func() {
+				mp.FHDR.FCnt = cand
+				if expectUplink {
+					okC, errC = phy.ValidateUplinkDataMIC(me.sess.MACVersion(), tx.ConfFCnt, tx.TxDR, tx.TxCh, lorawan.AES128Key(me.sess.FNwkSInt), lorawan.AES128Key(me.sess.SNwkSInt))
+				} else {
+					okC, errC = phy.ValidateDownlinkDataMIC(me.sess.MACVersion(), tx.ConfFCnt, lorawan.AES128Key(me.sess.SNwkSInt))
+				}
+			}) {
+				return false
+			}
+			if okC && errC == nil {
+				msgC := p.bytes[:len(p.bytes)-4]
+				specC := spec.DataMIC(msgC, expectUplink, me.sess.MICParams(cand, tx))
+				if !bytes.Equal(specC[:], p.bytes[len(p.bytes)-4:]) {
+					simrt.Report("tamper.accepted:fcnt-candidate", fmt.Sprintf("receiver accepted %x with frame counter candidate %#x although the specification's MIC for that counter is %x (a validation with the same frame value and another candidate follows)", p.bytes, cand, specC))
+				}
+			}
 		}
 	}
 	// the library's verdict, through the call a receiver of that role makes
